@@ -216,7 +216,7 @@ func TestC12(t *testing.T) {
 	zscores := []string{"1", "2", "2.5", "-1", "0", "3", "1e3", "-inf", "+inf"}
 	cfgNames := []string{"verif-a", "verif-b", "verif c"}
 
-	h.Rapid("programs", h.N(10000, 100000), func(rt *rapid.T) {
+	h.Rapid("programs", h.N(10000, 600000), func(rt *rapid.T) {
 		pick := func(label string, pool []string) string { return rapid.SampledFrom(pool).Draw(rt, label) }
 		n := rapid.IntRange(1, 20).Draw(rt, "len")
 		p := progCase{}
